@@ -444,12 +444,21 @@ def check_paths(ob, st: Structure, sib: Siblings, paths: List[BodyPath], r: int)
             extra.append(f"{'' if t else 'not '}{c}")
         missing = [j for j in range(1, sib.k) if j not in eqs]
         wrong = []
+        unsure = []
         for j in range(1, sib.k):
             if j in eqs:
                 want = sib.base + sib.stride * j
-                got = drop_symbol(eqs[j], sib.A)
+                got = eqs[j]
+                if at_zero:
+                    for sy in [sy for sy in got.syms() if sy.name == sib.A.name]:
+                        got = _subst(got, sy, 0)
+                got = drop_symbol(got, sib.A)
                 if got != want:
-                    wrong.append((j, got, want))
+                    stt_, text_ = same_or_refuted(got, want, 0)
+                    if stt_ == core.VIOLATED:
+                        wrong.append((j, got, want, text_))
+                    elif stt_ != core.DISCHARGED:
+                        unsure.append((j, got, want))
         if adv != sib.k:
             ob("C08.3", f"{tag}: merge consumes {adv} entries, a complete group has {sib.k}", core.VIOLATED, where,
                f"path [{pc[:200]}]")
@@ -459,10 +468,40 @@ def check_paths(ob, st: Structure, sib: Siblings, paths: List[BodyPath], r: int)
             ob("C08.2", f"{tag}: merge without checking sibling(s) {missing}", core.VIOLATED, where,
                f"entries at i+{missing} are replaced by the parent without being compared; checked: {sorted(eqs)}")
         if wrong:
-            j, got, want = wrong[0]
-            ob("C08.4", f"{tag}: expected sibling {j} is {got}, the real sibling is {want}", core.VIOLATED, where,
-               f"stride/first-child helpers disagree with the id layout: real siblings are first + j*{sib.stride}")
-        if not missing and not wrong:
+            j, got, want, text_ = wrong[0]
+            # can a sorted, duplicate-free list match the expected (wrong) ids at all?  If the expected sequence is not strictly
+            # ascending at the witness, the merge simply never fires there: nothing is replaced (C08 safe), a complete group stays (C09)
+            matchable = True
+            try:
+                from .codec import refute_equal, eval_lin
+                pt = refute_equal(got, want, 0)
+                if pt is not None:
+                    def fnval(atom, args):
+                        tb = codec.TABLES.get(atom.name)
+                        if tb is not None and len(args) == 1 and 0 <= args[0] < len(tb):
+                            return tb[args[0]]
+                        raise KeyError(atom)
+                    seq_forms = [cell_here] + [eqs[jj] for jj in range(1, sib.k) if jj in eqs]
+                    full = dict(pt)
+                    for f_ in seq_forms:
+                        for sy in f_.syms():
+                            full.setdefault(sy.name, sy.lo if sy.lo is not None else 0)
+                    seq = [eval_lin(f_, full, fnval) for f_ in seq_forms]
+                    matchable = all(a_ < b_ for a_, b_ in zip(seq, seq[1:]))
+            except Exception:
+                matchable = True
+            if matchable:
+                ob("C08.4", f"{tag}: expected sibling {j} is {got}, the real sibling is {want}", core.VIOLATED, where,
+                   f"stride/first-child helpers disagree with the id layout: real siblings are first + j*{sib.stride}; {text_}")
+            else:
+                ob("C08.4", f"{tag}: entry i+{j} is compared with {got}, not with the sibling {want}; no sorted list matches", core.DISCHARGED, where,
+                   f"{text_}; the expected ids are not ascending there, so this merge never fires for such a cell and nothing is replaced")
+                ob("C09.6", f"{tag}: a complete sibling group is not recognised", core.VIOLATED, where,
+                   f"entry i+{j} is compared with {got} instead of the sibling {want}: {text_}; the group of that parent is never merged")
+        if unsure and not wrong:
+            j, got, want = unsure[0]
+            ob("C08.4", f"{tag}: expected sibling {j} is {got}", core.UNDECIDED, where, f"not shown equal to the real sibling {want}, and no cell found where they differ")
+        if not missing and not wrong and not unsure:
             ob("C08.2", f"{tag}: merge only when entries i+1..i+{sib.k - 1} equal first + j*stride", core.DISCHARGED, where,
                f"{sib.k - 1} equalities against the real sibling ids (stride {sib.stride})")
         if window is None:
